@@ -7,7 +7,7 @@ CONSTANTS
   BO = 3
   IVALS <- IvOne
   ASIS = {}
-  ENV = {"complete", "flip", "expire", "stop"}
+  ENV = {"complete", "flip", "stop"}
 INVARIANT InvFixed
 PROPERTY Live
 CHECK_DEADLOCK FALSE
